@@ -6,10 +6,12 @@ patch="$1"; shift
 if [ -n "$(git -C /repo status --porcelain --untracked-files=no)" ]; then echo "repo not clean"; exit 3; fi
 git -C /repo apply "$patch" || { echo "patch does not apply"; exit 3; }
 rc_all=0
+mkdir -p /verif/target/evidence-bak; cp /verif/evidence/*.json /verif/target/evidence-bak/ 2>/dev/null
 for id in "$@"; do
   out=$(VERIF_THREADS=${VERIF_THREADS:-8} /verif/bin/vcheck "$id" quick 2>&1); rc=$?
   echo "== $id exit=$rc"; echo "$out" | grep -E "^(VIOLATION|INCONCLUSIVE|  signature|C[0-9]+ quick)" | head -6
   [ $rc -eq 1 ] || rc_all=1
 done
 git -C /repo checkout -- .
+cp /verif/target/evidence-bak/*.json /verif/evidence/ 2>/dev/null
 exit $rc_all
